@@ -1,9 +1,12 @@
 import Driver.Proto
 import PqModel.Merge
 import PqModel.MergeRanges
+import PqModel.Compare
+import PqModel.MergeRefine
+import PqModel.MergeZero
 
 namespace Driver.Ops.C09
-open Driver PqModel.Merge
+open Driver PqModel.Merge PqModel.Compare
 
 /-- list of lists: parts separated by `/`, `.` = no part at all, `-` = empty part -/
 def parseLists? {α} (p : String → Option α) (s : String) : Option (List (List α)) :=
@@ -24,6 +27,49 @@ def sessionS : Reader → List Nat → List (List Row) × List Int × Bool
       let rest := sessionS res.2.2 ms
       (res.1 :: rest.1, streakOf res.2.2 :: rest.2.1, rest.2.2)
 
+def parseSpec? (s : String) : Option ColSpec :=
+  match s.toList with
+  | [d, n] =>
+    if (d == 'a' || d == 'd') && (n == 'l' || n == 'f') then some { desc := d == 'd', nullsFirst := n == 'f' } else none
+  | _ => none
+
+def parseKeyRow? (s : String) : Option KeyRow := (s.splitOn ";").mapM parseOptInt?
+
+/-- mirror rows of inputs with compound nullable keys: key = rank under `cmpRows specs`
+    (same definition as `rankRows`, computed once per distinct call) -/
+def rankInputs (specs : List ColSpec) (ins : List (List KeyRow)) : List (List Row) :=
+  let all := ins.flatten
+  let c := cmpRows specs
+  (List.range ins.length).map (fun i =>
+    let src := ins.getD i []
+    (List.range src.length).map (fun j => { key := (rankIn c all (src.getD j []) : Nat), inp := i, seq := j }))
+
+def parsePage? (s : String) : Option PqModel.Refine.PageStat :=
+  match s.splitOn "_" with
+  | [mn, mx, fl] =>
+    match parseOptInt? mn, parseOptInt? mx with
+    | some mn, some mx =>
+      if fl == "N" then some { nullPage := true, hasNulls := true, min := mn, max := mx }
+      else if fl == "h" then some { nullPage := false, hasNulls := true, min := mn, max := mx }
+      else if fl == "o" then some { nullPage := false, hasNulls := false, min := mn, max := mx }
+      else none
+    | _, _ => none
+  | _ => none
+
+/-- `<numRows>~<pages of col 0>~…~F<first row indexes>`; pages `min_max_flag` comma separated -/
+def parseTarget? (idx : Nat) (s : String) : Option PqModel.Refine.Target :=
+  match s.splitOn "~" with
+  | [] => none
+  | n :: rest =>
+    match parseNat? n with
+    | none => none
+    | some n =>
+      let cols := rest.filter (fun x => !x.startsWith "F")
+      let firsts := rest.filter (fun x => x.startsWith "F")
+      match cols.mapM (parseList? parsePage?), firsts.mapM (fun x => parseList? parseNat? (x.drop 1).toString) with
+      | some cols, some fr => some { idx := idx, numRows := n, cols := cols, firstRows := fr.headD [] }
+      | _, _ => none
+
 def showRow (r : Row) : String := s!"{r.inp}:{r.seq}"
 def showBatch (b : List Row) : String := showList showRow b
 
@@ -41,6 +87,33 @@ def handle (toks : List String) : Option String :=
       let r := Reader.new (tagInputs ins) rs
       let res := sessionS r bs
       s!"ok {if res.2.2 then 1 else 0} {"|".intercalate (res.1.map showBatch)} {showList toString res.2.1}"
+    | _, _, _ => "bad-op"
+  | ["merge.runz", ins, bs, rs] => some <|
+    match parseLists? parseInt? ins, parseList? parseNat? bs, parseLists? parseNat? rs with
+    | some ins, some bs, some rs =>
+      match tagInputs ins with
+      | [a, b] =>
+        let out := (M2Z.new a b (rs.getD 0 []) (rs.getD 1 [])).session bs
+        s!"ok {"|".intercalate (out.map showBatch)}"
+      | _ => "bad-op"
+    | _, _, _ => "bad-op"
+  | ["merge.runc", specs, ins, bs, rs] => some <|
+    match parseList? parseSpec? specs, parseLists? parseKeyRow? ins, parseList? parseNat? bs, parseLists? parseNat? rs with
+    | some specs, some ins, some bs, some rs =>
+      let r := Reader.new (rankInputs specs ins) rs
+      let res := sessionS r bs
+      s!"ok {if res.2.2 then 1 else 0} {"|".intercalate (res.1.map showBatch)} {showList toString res.2.1}"
+    | _, _, _, _ => "bad-op"
+  | ["merge.plan", strict, specs, ts] => some <|
+    let parts := if ts == "." then [] else ts.splitOn "/"
+    match parseList? parseSpec? specs, (List.range parts.length).mapM (fun i => parseTarget? i (parts.getD i "")) with
+    | some specs, some ts =>
+      let plan := PqModel.Refine.planOf (strict == "1") specs ts
+      s!"ok {showList (fun (x : Nat × Nat) => s!"{x.1}:{x.2}") plan}"
+    | _, _ => "bad-op"
+  | ["merge.cmp", specs, a, b] => some <|
+    match parseList? parseSpec? specs, parseKeyRow? a, parseKeyRow? b with
+    | some specs, some a, some b => s!"ok {cmpRows specs a b}"
     | _, _, _ => "bad-op"
   | ["merge.runlength", w, b, mx] => some <|
     match parseList? parseInt? w, parseInt? b, parseInt? mx with
